@@ -137,40 +137,86 @@ Proof.
     + destruct (String.eqb f "time.Duration"); [apply incl_refl|cbn; apply incl_nil_l].
 Qed.
 
-Lemma heval_secrets T t v e : incl (vsecrets (heval T t v e)) (vsecrets v).
+(* ---------------------------------------------------------------------------- compiled hooks: secrets *)
+Lemma iget_secrets p : forall v x, iget p v = Some x -> incl (vsecrets x) (vsecrets v).
 Proof.
-  induction e as [p| |f e IH]; cbn.
-  - destruct (vget T t v p) as [[t2 v2]|] eqn:E; [eapply vget_secrets; eauto|cbn; apply incl_nil_l].
-  - apply incl_nil_l.
-  - eapply incl_tran; [apply call_marshal_fn_secrets|exact IH].
+  induction p as [|i p IH]; intros v x H; cbn in H.
+  - inversion H; subst. apply incl_refl.
+  - destruct v; try discriminate. destruct (nth_error fs i) as [y|] eqn:En; [|discriminate].
+    eapply incl_tran; [eapply IH; exact H|]. cbn. eapply incl_flat_map_nth; eauto.
 Qed.
 
-Lemma vset_heval_secrets T t v l e : incl (vsecrets (vset T t v l (heval T t v e))) (vsecrets v).
+Lemma iset_secrets p : forall x v, incl (vsecrets (iset p x v)) (vsecrets v ++ vsecrets x).
 Proof.
-  eapply incl_tran; [apply vset_secrets|].
-  apply incl_app; [apply incl_refl|apply heval_secrets].
+  induction p as [|i p IH]; intros x v; cbn.
+  - apply incl_appr, incl_refl.
+  - destruct v; try (apply incl_appl, incl_refl).
+    destruct (nth_error fs i) as [y|] eqn:En; [|apply incl_appl, incl_refl].
+    cbn. eapply incl_tran; [apply flat_map_set_nth|].
+    apply incl_app; [apply incl_appl, incl_refl|].
+    eapply incl_tran; [apply IH|].
+    apply incl_app; [|apply incl_appr, incl_refl].
+    apply incl_appl. eapply (incl_flat_map_nth vsecrets); eauto.
 Qed.
 
-Lemma run_assigns_secrets T t l : forall v, incl (vsecrets (run_assigns T t v l)) (vsecrets v).
+Lemma iset_secrets_from p x v w : incl (vsecrets x) (vsecrets w) -> incl (vsecrets v) (vsecrets w) ->
+  incl (vsecrets (iset p x v)) (vsecrets w).
+Proof. intros Hx Hv. eapply incl_tran; [apply iset_secrets|]. apply incl_app; assumption. Qed.
+
+Lemma c_out_secrets c h : incl (vsecrets (c_out c h)) (vsecrets h).
+Proof. destruct c as [[n|]|]; [apply to_opaque_secrets|apply incl_refl|apply (call_marshal_fn_secrets "metadataToConfig")]. Qed.
+
+Lemma iget_d_secrets p v : incl (vsecrets (iget_d p v)) (vsecrets v).
+Proof. unfold iget_d. destruct (iget p v) eqn:E; [eapply iget_secrets; eauto|apply incl_nil_l]. Qed.
+
+Lemma sh_out_secrets sh v w : sh_out sh v = Some w -> incl (vsecrets w) (vsecrets v).
 Proof.
-  unfold run_assigns. induction l as [|a l IH]; intros v; cbn; [apply incl_refl|].
-  eapply incl_tran; [apply IH|]. apply vset_heval_secrets.
+  unfold sh_out. intros H. eapply incl_tran; [eapply iget_secrets; exact H|].
+  generalize (sh_pairs sh). intros l.
+  assert (G : forall acc, incl (vsecrets acc) (vsecrets v) ->
+     incl (vsecrets (fold_left (fun acc p => let '(i, H, c) := p in
+                                 match iget [H] v with Some h => iset [sh_tgt sh; i] (c_out c h) acc | None => acc end) l acc)) (vsecrets v)).
+  { induction l as [|[[i Hh] c] l IH]; intros acc Ha; cbn [fold_left]; [exact Ha|].
+    apply IH. destruct (iget [Hh] v) as [h|] eqn:E; [|exact Ha].
+    apply iset_secrets_from; [|exact Ha].
+    eapply incl_tran; [apply c_out_secrets|eapply iget_secrets; eauto]. }
+  apply G. apply incl_refl.
 Qed.
 
-Lemma run_stmt_secrets T t v s : incl (vsecrets (run_stmt T t v s)) (vsecrets v).
+Lemma hook_out_secrets T sd h v t2 v2 : hook_out T sd h v = Some (t2, v2) -> incl (vsecrets v2) (vsecrets v).
 Proof.
-  destruct s as [l r|p body|p body]; cbn.
-  - apply vset_heval_secrets.
-  - destruct (vget T t v p) as [[t2 v2]|]; try apply incl_refl.
-    destruct v2; try apply incl_refl. destruct es; try apply incl_refl. apply run_assigns_secrets.
-  - destruct (vget T t v p) as [[t2 v2]|]; try apply incl_refl.
-    destruct v2; try apply incl_refl; apply run_assigns_secrets.
-Qed.
-
-Lemma run_stmts_secrets T t l : forall v, incl (vsecrets (run_stmts T t v l)) (vsecrets v).
-Proof.
-  unfold run_stmts. induction l as [|s l IH]; intros v; cbn; [apply incl_refl|].
-  eapply incl_tran; [apply IH|apply run_stmt_secrets].
+  destruct h; cbn [hook_out]; intros H; try discriminate H.
+  - destruct (sh_out sh v) as [w|] eqn:E; cbn in H; [|discriminate H]. inversion H; subst. eapply sh_out_secrets; eauto.
+  - unfold chain_out in H.
+    assert (G : exists w, option_map (pair (field_ty sd tgt)) w = Some (t2, v2) /\
+                          (forall x, w = Some x -> incl (vsecrets x) (vsecrets v))).
+    { destruct (iget [ctxs] v) as [c|] eqn:Ec.
+      - destruct c; try (eexists; split; [exact H|intros x Hx; exact (iget_secrets _ _ _ Hx)]).
+        destruct es as [|e es]; [eexists; split; [exact H|intros x Hx; exact (iget_secrets _ _ _ Hx)]|].
+        eexists; split; [exact H|]. intros x Hx. eapply incl_tran; [exact (iget_secrets _ _ _ Hx)|].
+        apply iset_secrets_from; [exact (iget_secrets _ _ _ Ec)|].
+        apply iset_secrets_from; [apply incl_nil_l|apply incl_refl].
+      - eexists; split; [exact H|intros x Hx; exact (iget_secrets _ _ _ Hx)]. }
+    destruct G as [w [Hw Hs]]. destruct w as [x|]; cbn in Hw; [|discriminate]. inversion Hw; subst. apply Hs. reflexivity.
+  - unfold inline_out in H.
+    assert (G : forall w, option_map (pair (field_ty sd tgt)) w = Some (t2, v2) ->
+                          (forall x, w = Some x -> incl (vsecrets x) (vsecrets v)) -> incl (vsecrets v2) (vsecrets v)).
+    { intros w Hw Hs. destruct w as [x|]; cbn in Hw; [|discriminate]. inversion Hw; subst. apply Hs. reflexivity. }
+    destruct (iget [tgt; pathf] v) as [pv|].
+    + destruct pv; try (eapply G; [exact H|intros x Hx; exact (iget_secrets _ _ _ Hx)]).
+      destruct s; try (eapply G; [exact H|intros x Hx; exact (iget_secrets _ _ _ Hx)]).
+      eapply G; [exact H|]. intros x Hx. eapply incl_tran; [exact (iget_secrets _ _ _ Hx)|].
+      apply iset_secrets_from; [apply iget_d_secrets|apply incl_refl].
+    + eapply G; [exact H|intros x Hx; exact (iget_secrets _ _ _ Hx)].
+  - unfold listener_out in H.
+    assert (G : forall w, option_map (pair (field_ty sd tgt)) w = Some (t2, v2) ->
+                          (forall x, w = Some x -> incl (vsecrets x) (vsecrets v)) -> incl (vsecrets v2) (vsecrets v)).
+    { intros w Hw Hs. destruct w as [x|]; cbn in Hw; [|discriminate]. inversion Hw; subst. apply Hs. reflexivity. }
+    destruct (iget [addr] v) as [a|].
+    + destruct a; try (eapply G; [exact H|intros x Hx; exact (iget_secrets _ _ _ Hx)]).
+      eapply G; [exact H|]. intros x Hx. eapply incl_tran; [exact (iget_secrets _ _ _ Hx)|].
+      apply iset_secrets_from; [apply incl_nil_l|apply incl_refl].
+    + eapply G; [exact H|intros x Hx; exact (iget_secrets _ _ _ Hx)].
 Qed.
 
 (* ---------------------------------------------------------------------------------------------- encode *)
@@ -217,19 +263,12 @@ Proof.
     try (destruct (String.eqb coder "text"); [cbn|rewrite opaque_json_secrets]; apply incl_nil_l).
   - (* TNamed, VStruct *)
     destruct (find_struct T n) as [sd|]; [|apply incl_refl].
-    destruct (s_hook sd) as [|pre tgt|pf pre tgt|f|].
-    + cbn [jsecrets]. apply enc_fields_secrets. exact IH.
-    + destruct (vget T (TNamed n) (run_stmts T (TNamed n) (VStruct fs) pre) tgt) as [[t2 v2]|] eqn:E; [|apply incl_refl].
-      eapply Hsub; [exact E|apply run_stmts_secrets].
-    + match goal with |- context [vget T (TNamed n) ?V tgt] => destruct (vget T (TNamed n) V tgt) as [[t2 v2]|] eqn:E end; [|apply incl_refl].
-      eapply Hsub; [exact E|].
-      destruct (vget T (TNamed n) (VStruct fs) pf) as [[t3 v3]|]; try apply incl_refl.
-      destruct v3; try apply incl_refl. destruct s; try apply incl_refl. apply run_stmts_secrets.
-    + destruct (vget T (TNamed n) (VStruct fs) [f]) as [[t2 v2]|] eqn:E; [|apply incl_refl].
-      eapply Hsub; [exact E|apply incl_refl].
-    + apply incl_refl.
+    destruct (hook_compiled T sd) eqn:Eh;
+      try (cbn [jsecrets]; apply enc_fields_secrets; exact IH);
+      (destruct (hook_out T sd _ (VStruct fs)) as [[t2 v2]|] eqn:Eo; [|apply incl_refl];
+       eapply incl_tran; [apply IH|eapply hook_out_secrets; exact Eo]).
   - (* TNamed, VJson: custom marshaler carried as JSON *)
-    destruct (find_struct T n) as [sd|]; [destruct (s_hook sd)|]; apply incl_refl.
+    destruct (find_struct T n) as [sd|]; [destruct (hook_compiled T sd)|]; apply incl_refl.
   - (* TPtr, VRef *)
     destruct es as [|[k x] es]; [apply incl_refl|]. destruct es; [|apply incl_refl].
     cbn. rewrite app_nil_r. apply IH.
